@@ -380,7 +380,23 @@ func buildProps(s *Spec) map[string]*schema.PropertySchema {
 }
 
 // BuildObject builds an object spec (map based or struct mapped).
+// Share, when set, makes BuildObject return one schema object per distinct object spec (keyed by its printed form):
+// two schemas built while it is set share the objects of their common parts by identity.
+var Share map[string]*schema.ObjectSchema
+
 func BuildObject(s *Spec) *schema.ObjectSchema {
+	if Share != nil {
+		k := s.String()
+		if o, ok := Share[k]; ok {
+			return o
+		}
+		o := buildObject(s)
+		Share[k] = o
+		if OnBuild != nil {
+			OnBuild(s, o)
+		}
+		return o
+	}
 	o := buildObject(s)
 	if OnBuild != nil {
 		OnBuild(s, o)
